@@ -15,7 +15,11 @@ Fixpoint emb (t : Lang.tm) : FreeVars.tm :=
   | IfLe a b t e => App (App (Op1 (Op2 (emb a) (emb b))) (emb t)) (emb e)
   end.
 
-Definition emb_field (d : fdef) : field := Fld [] (option_map emb (fbody d)).
+(* the contract annotation `| Ge e` / `| Ne e`, where Ge = fun lo => std.contract.from_predicate
+   (fun v => v >= lo) is a closed combinator bound outside of the record (a leaf here) *)
+Definition emb_ctr (kc : ctr) : ty := TContract (App Leaf (emb (snd kc))).
+
+Definition emb_field (d : fdef) : field := Fld (map emb_ctr (fctrs d)) (option_map emb (fbody d)).
 
 (* the literal as the parser builds it: statically named fields, and dynamically named fields
    whose name is a string with an interpolated outer variable *)
@@ -51,40 +55,59 @@ Proof.
   intros l. unfold rec_fields, emb_stat, lit_scope. cbn [map]. rewrite app_nil_r, map_map. reflexivity.
 Qed.
 
-Lemma field_deps_agree : forall l d t x,
-  fbody d = Some t ->
-  (In x (inter (collect_field false (emb_field d)) (rec_fields (emb_stat l) []))
-   <-> In x (filter (fun y => Lang.mem y (lit_scope l)) (c_an cfg_partA t))).
+Lemma collect_field_emb : forall d x,
+  In x (collect_field false (emb_field d))
+  <-> In x (flat_map (fun kc => c_an cfg_partA (snd kc)) (fctrs d)
+            ++ match fbody d with Some t => c_an cfg_partA t | None => [] end).
 Proof.
-  intros l d t x Hb. rewrite In_inter, filter_In, rec_fields_scope. unfold emb_field. rewrite Hb.
-  cbn [option_map collect_field flat_map app c_an cfg_partA].
-  rewrite <- (FreeVarsProofs.mem_In x (lit_scope l)). unfold FreeVars.mem, Lang.mem. reflexivity.
+  intros d x. unfold emb_field. cbn [collect_field]. rewrite !in_app_iff.
+  assert (H1 : In x (flat_map (collect_ty false) (map emb_ctr (fctrs d)))
+               <-> In x (flat_map (fun kc => c_an cfg_partA (snd kc)) (fctrs d))).
+  { rewrite !in_flat_map. split.
+    - intros [t [Ht Hx]]. apply in_map_iff in Ht. destruct Ht as [kc [E Hkc]]. subst t. exists kc. split; [exact Hkc|].
+      cbn [emb_ctr collect_ty collect app] in Hx. exact Hx.
+    - intros [kc [Hkc Hx]]. exists (emb_ctr kc). split; [apply in_map; exact Hkc|].
+      cbn [emb_ctr collect_ty collect app]. exact Hx. }
+  rewrite H1. destruct (fbody d) as [t|]; cbn [option_map]; reflexivity.
+Qed.
+
+Lemma field_deps_agree : forall l d x,
+  In x (inter (collect_field false (emb_field d)) (rec_fields (emb_stat l) []))
+  <-> (exists ds, field_deps cfg_partA (lit_scope l) d = Some ds /\ In x ds).
+Proof.
+  intros l d x. rewrite In_inter, rec_fields_scope, collect_field_emb. unfold field_deps. cbn [c_unknown cfg_partA].
+  split.
+  - intros [H1 H2]. eexists. split; [reflexivity|]. apply filter_In. split; [exact H1|].
+    apply (proj2 (FreeVarsProofs.mem_In x (lit_scope l))) in H2. exact H2.
+  - intros [ds [E Hx]]. inversion E; subst ds. apply filter_In in Hx. destruct Hx as [H1 H2]. split; [exact H1|].
+    apply (proj1 (FreeVarsProofs.mem_In x (lit_scope l))). exact H2.
 Qed.
 
 (* the tables [deps_stat] / [deps_dyn] of the literal seen as a term of part A have, for every
-   defined field, the members of the filter the mechanism allocates its thunk with *)
-Theorem literal_deps_agree_stat : forall (l : literal) k d t x,
-  In (k, d) l -> fdyn d = false -> fbody d = Some t ->
+   field, the members of the dependency set the mechanism gives to the thunks of that field (value
+   and contracts) *)
+Theorem literal_deps_agree_stat : forall (l : literal) k d x,
+  In (k, d) l -> fdyn d = false ->
   exists ds, In (k, ds) (deps_stat false (emb_stat l) []) /\
-             (In x ds <-> In x (filter (fun y => Lang.mem y (lit_scope l)) (c_an cfg_partA t))).
+             (In x ds <-> exists ds', field_deps cfg_partA (lit_scope l) d = Some ds' /\ In x ds').
 Proof.
-  intros l k d t x Hin Hdyn Hb.
+  intros l k d x Hin Hdyn.
   exists (inter (collect_field false (emb_field d)) (rec_fields (emb_stat l) [])). split.
   - unfold deps_stat. cbn [map app]. apply in_map_iff. exists (k, emb_field d). split; [reflexivity|].
     unfold emb_stat. apply in_map_iff. exists (k, d). split; [reflexivity|]. apply filter_In. split; [exact Hin|].
     cbn [snd]. rewrite Hdyn. reflexivity.
-  - apply field_deps_agree. exact Hb.
+  - apply field_deps_agree.
 Qed.
 
-Theorem literal_deps_agree_dyn : forall (l : literal) k d t x,
-  In (k, d) l -> fdyn d = true -> fbody d = Some t ->
+Theorem literal_deps_agree_dyn : forall (l : literal) k d x,
+  In (k, d) l -> fdyn d = true ->
   exists ds, In ds (deps_dyn false (emb_stat l) [] (emb_dyn l)) /\
-             (In x ds <-> In x (filter (fun y => Lang.mem y (lit_scope l)) (c_an cfg_partA t))).
+             (In x ds <-> exists ds', field_deps cfg_partA (lit_scope l) d = Some ds' /\ In x ds').
 Proof.
-  intros l k d t x Hin Hdyn Hb.
+  intros l k d x Hin Hdyn.
   exists (inter (collect_field false (emb_field d)) (rec_fields (emb_stat l) [])). split.
   - unfold deps_dyn. apply in_map_iff.
     exists (Chunks [Some (FreeVars.Var (k + 1000)%N)], emb_field d). split; [reflexivity|].
     unfold emb_dyn. apply in_map_iff. exists (k, d). split; [reflexivity|]. apply filter_In. split; [exact Hin | exact Hdyn].
-  - apply field_deps_agree. exact Hb.
+  - apply field_deps_agree.
 Qed.
